@@ -320,5 +320,27 @@ pub fn run(ctx: &Ctx) {
     );
     ctx.generated("random-f64", "f64", t.pick(1_000_000, 30_000_000), "uniformly random f64 bit patterns", || any::<u64>().prop_map(|bits| F64Bits { bits }).boxed(), check_f64);
     ctx.generated("random-f32", "f32", t.pick(1_000_000, 1_000_000), "uniformly random f32 bit patterns", || any::<u32>().prop_map(|bits| F32Bits { bits }).boxed(), check_f32);
+    ctx.enumerated(
+        "powers-of-ten-to-f64",
+        "tof64",
+        9 * 700 * 4,
+        true,
+        "EXHAUSTIVE: d * 10^k for d in 1..9, k in -345..354, written as (d, -k), (d0, -k+1), (d000, -k+3) and its negation: decimal exponents across the whole f64 range incl. the overflow and underflow thresholds",
+        |i| {
+            let mut j = i;
+            let form = j % 4;
+            j /= 4;
+            let d = 1 + j % 9;
+            let k = (j / 9) as i64 - 345;
+            let (digits, scale) = match form {
+                0 => (d.to_string(), -k),
+                1 => (format!("{}0", d), -k + 1),
+                2 => (format!("{}000", d), -k + 3),
+                _ => (format!("-{}", d), -k),
+            };
+            Some(DecToF { d: D::new(digits, scale) })
+        },
+        check_to_f64,
+    );
     ctx.generated("decimal-to-f64", "tof64", t.pick(200_000, 4_000_000), "decimals of 1..400 digits with exponents -400..400; exact midpoints between adjacent doubles +-1 far unit; neighbourhoods of MAX, MIN_POSITIVE, the largest and smallest subnormal; extreme scales (beyond i32, random i64)", to_f64_strategy, check_to_f64);
 }
